@@ -693,3 +693,864 @@ theorem GB_wrap (p : PT) (hU : GU (internal p)) (hB : GB (fun U a b => cleanG U 
 
 
 end QP.C05
+
+namespace QP.C05
+open QP.PT
+
+/-! ## small transport lemmas -/
+
+theorem nnI_guardRun (ms : List Window) (I : List Item) : nnI (guardRun ms I) ↔ nnI I := by
+  simp only [nnI, guardRun_nodes]
+
+theorem tidyI_guardRun (c : Chan) (ms : List Window) (I : List Item) : tidyI c (guardRun ms I) ↔ tidyI c I := by
+  simp only [tidyI, guardRun_nodes]
+
+theorem allLeavesList_rep (p : Wf → Bool) (n : Nat) (ms : List Window) (I : List Item)
+    (h : allLeavesList p (itemsNodes (tryAppend ((Loop.mk n none [] []).applyItems I) ms)) = true) :
+    allLeavesList p (itemsNodes I) = true := by
+  rw [applyItems_repLoop] at h
+  unfold tryAppend at h
+  rw [repLoop_isEmpty] at h
+  by_cases he : itemsNodes I = []
+  · rw [he]; rfl
+  · have e1 : (itemsNodes I).isEmpty = false := by simpa using he
+    simp only [e1, Bool.false_eq_true, if_false, itemsNodes, allLeavesList, Bool.and_true, repLoop,
+      allLeaves_none] at h
+    exact h
+
+theorem allLeavesList_append_left (p : Wf → Bool) (I J : List Item)
+    (h : allLeavesList p (itemsNodes (I ++ J)) = true) :
+    allLeavesList p (itemsNodes I) = true ∧ allLeavesList p (itemsNodes J) = true := by
+  rw [itemsNodes_append, allLeavesList_append, Bool.and_eq_true] at h
+  exact h
+
+/-- two evaluations of the same thing -/
+theorem ok_inj {ε α} {x : Except ε α} {a b : α} (h1 : x = .ok a) (h2 : x = .ok b) : a = b := by
+  rw [h1] at h2; cases h2; rfl
+
+/-! ## atoms -/
+
+theorem GU_atom (p : PT) (hp : ∀ ctx, internal p ctx = atomItems p ctx) : GU (internal p) := by
+  intro ctx T0 J hJ hnn T S I hI
+  rw [hp] at hJ hI
+  exact atomItems_inv p { ctx with trafo := T0, single := [] } { ctx with trafo := T, single := S } rfl rfl J I hJ hnn hI
+
+theorem GB_atom (p : PT) (hp : ∀ ctx, internal p ctx = atomItems p ctx) (cl : List String → Bool → Bool → Bool) :
+    GB cl (internal p) := by
+  intro ctx T0 J hJ hnn T₁ T₂ S S' U I I' c tr1 tr2 hI hI' _ _ _ _ _ _ _
+  rw [hp] at hI hI'
+  exact atomItems_rel p { ctx with trafo := T₁ ++ T₂, single := S } { ctx with trafo := T₁, single := S' } T₁ T₂ rfl rfl rfl rfl rfl I I' hI hI' c
+
+/-! ## sequences -/
+
+theorem internalList_cons_ok (p : PT) (ps : List PT) (ctx : Ctx) (I : List Item)
+    (h : internalList (p :: ps) ctx = .ok I) :
+    ∃ a b, wrapK p ctx = .ok a ∧ internalList ps ctx = .ok b ∧ I = a ++ b := by
+  rw [internalList] at h
+  obtain ⟨a, ha, h⟩ := bind_ok h
+  obtain ⟨b, hb, h⟩ := bind_ok h
+  exact ⟨a, b, ha, hb, (pure_ok h).symm⟩
+
+theorem GU_cons (p : PT) (ps : List PT) (h1 : GU (wrapK p)) (h2 : GU (internalList ps)) :
+    GU (internalList (p :: ps)) := by
+  intro ctx T0 J hJ hnn T S I hI
+  obtain ⟨ja, jb, hja, hjb, rfl⟩ := internalList_cons_ok p ps _ J hJ
+  obtain ⟨a, b, ha, hb, rfl⟩ := internalList_cons_ok p ps _ I hI
+  obtain ⟨n1, n2⟩ := allLeavesList_append_left _ ja jb hnn
+  exact inv_append a b (h1 ctx T0 ja hja n1 T S a ha) (h2 ctx T0 jb hjb n2 T S b hb)
+
+theorem GB_cons (p : PT) (ps : List PT) (u1 : GU (wrapK p))
+    (h1 : GB (fun U a b => cleanW U a b p) (wrapK p)) (h2 : GB (fun U a b => cleanL U a b ps) (internalList ps)) :
+    GB (fun U a b => cleanL U a b (p :: ps)) (internalList (p :: ps)) := by
+  intro ctx T0 J hJ hnn T₁ T₂ S S' U I I' c tr1 tr2 hI hI' hSU hS'U hf1 hf2 hclean htI htI'
+  obtain ⟨ja, jb, hja, hjb, rfl⟩ := internalList_cons_ok p ps _ J hJ
+  obtain ⟨a, b, ha, hb, rfl⟩ := internalList_cons_ok p ps _ I hI
+  obtain ⟨a', b', ha', hb', rfl⟩ := internalList_cons_ok p ps _ I' hI'
+  obtain ⟨n1, n2⟩ := allLeavesList_append_left _ ja jb hnn
+  obtain ⟨t1, t2⟩ := allLeavesList_append_left _ a b htI
+  obtain ⟨t1', t2'⟩ := allLeavesList_append_left _ a' b' htI'
+  have hcl : cleanW U tr1 tr2 p = true ∧ cleanL U tr1 tr2 ps = true := by
+    simpa [cleanL, cleanW, Bool.and_eq_true] using hclean
+  have ia := u1 ctx T0 ja hja n1 _ _ a ha
+  have ia' := u1 ctx T0 ja hja n1 _ _ a' ha'
+  exact rel_append c T₂ a b a' b' ia.nn ia'.nn
+    (h1 ctx T0 ja hja n1 T₁ T₂ S S' U a a' c tr1 tr2 ha ha' hSU hS'U hf1 hf2 hcl.1 t1 t1')
+    (h2 ctx T0 jb hjb n2 T₁ T₂ S S' U b b' c tr1 tr2 hb hb' hSU hS'U hf1 hf2 hcl.2 t2 t2')
+
+theorem GU_nil : GU (internalList []) := by
+  intro ctx T0 J _ _ T S I hI
+  rw [internalList] at hI
+  cases hI
+  exact inv_nil
+
+theorem GB_nil (cl : List String → Bool → Bool → Bool) : GB cl (internalList []) := by
+  intro ctx T0 J _ _ T₁ T₂ S S' U I I' c tr1 tr2 hI hI' _ _ _ _ _ _ _
+  rw [internalList] at hI hI'
+  cases hI; cases hI'
+  exact rel_nil c T₂
+
+theorem internal_seq_ok (id : Option String) (subs : List PT) (meas : List MeasDecl) (cons : List Expr)
+    (ctx : Ctx) (I : List Item) (h : internal (.seq id subs meas cons) ctx = .ok I) :
+    ∃ ms items, getMeas meas ctx.scope.look ctx.mm = .ok ms ∧ internalList subs ctx = .ok items ∧
+      I = guardRun ms items := by
+  rw [internal] at h
+  obtain ⟨_, _, h⟩ := bind_ok h
+  obtain ⟨ms, hms, h⟩ := bind_ok h
+  obtain ⟨items, hi, h⟩ := bind_ok h
+  exact ⟨ms, items, hms, hi, (pure_ok h).symm⟩
+
+theorem GU_seq (id : Option String) (subs : List PT) (meas : List MeasDecl) (cons : List Expr)
+    (h : GU (internalList subs)) : GU (internal (.seq id subs meas cons)) := by
+  intro ctx T0 J hJ hnn T S I hI
+  obtain ⟨_, jt, _, hjt, rfl⟩ := internal_seq_ok _ _ _ _ _ J hJ
+  obtain ⟨ms, it, _, hit, rfl⟩ := internal_seq_ok _ _ _ _ _ I hI
+  exact inv_guardRun it ms (h ctx T0 jt hjt ((nnI_guardRun _ _).mp hnn) T S it hit)
+
+theorem GB_seq (id : Option String) (subs : List PT) (meas : List MeasDecl) (cons : List Expr)
+    (u : GU (internalList subs)) (h : GB (fun U a b => cleanL U a b subs) (internalList subs)) :
+    GB (fun U a b => cleanG U a b (.seq id subs meas cons)) (internal (.seq id subs meas cons)) := by
+  intro ctx T0 J hJ hnn T₁ T₂ S S' U I I' c tr1 tr2 hI hI' hSU hS'U hf1 hf2 hclean htI htI'
+  obtain ⟨_, jt, _, hjt, rfl⟩ := internal_seq_ok _ _ _ _ _ J hJ
+  obtain ⟨ms, it, hms, hit, rfl⟩ := internal_seq_ok _ _ _ _ _ I hI
+  obtain ⟨ms', it', hms', hit', rfl⟩ := internal_seq_ok _ _ _ _ _ I' hI'
+  have : ms = ms' := ok_inj hms hms'
+  subst this
+  have hn := (nnI_guardRun _ _).mp hnn
+  have i1 := u ctx T0 jt hjt hn _ _ it hit
+  have i2 := u ctx T0 jt hjt hn _ _ it' hit'
+  apply rel_guardRun c T₂ it it' ms i1.trail i2.trail
+  exact h ctx T0 jt hjt hn T₁ T₂ S S' U it it' c tr1 tr2 hit hit' hSU hS'U hf1 hf2
+    (by simpa [cleanG] using hclean) ((tidyI_guardRun _ _ _).mp htI) ((tidyI_guardRun _ _ _).mp htI')
+
+
+end QP.C05
+
+namespace QP.C05
+open QP.PT
+
+def forRangeOf (σ : Scope) (start stop step : Expr) : Except Err (List Int) := do
+  let a ← σ.eval start
+  let a ← match checkedInt a with | some a => pure a | none => .error .valueError
+  let b ← σ.eval stop
+  let b ← match checkedInt b with | some b => pure b | none => .error .valueError
+  let s ← σ.eval step
+  let s ← match checkedInt s with | some s => pure s | none => .error .valueError
+  if s = 0 then .error .valueError else pure (pyRange a b s)
+
+theorem internal_for_eq (id : Option String) (body : PT) (idx : String) (start stop step : Expr)
+    (meas : List MeasDecl) (cons : List Expr) (ctx : Ctx) :
+    internal (.forLoop id body idx start stop step meas cons) ctx = (do
+      validateCons cons ctx.scope.look
+      let r ← forRangeOf ctx.scope start stop step
+      let ms ← getMeas meas ctx.scope.look ctx.mm
+      let items ← r.flatMapM (fun (i : Int) =>
+        wrapSingle body.ident { ctx with scope := .range ctx.scope idx (i : Rat) } (internal body))
+      pure (guardRun ms items)) := by
+  rw [internal]
+  unfold forRangeOf
+  cases validateCons cons ctx.scope.look with
+  | error e => rfl
+  | ok _ =>
+    cases ctx.scope.eval start with
+    | error e => rfl
+    | ok a =>
+      cases ha : checkedInt a with
+      | none => simp [bind, Except.bind, ha]
+      | some a' =>
+        cases ctx.scope.eval stop with
+        | error e => simp [bind, Except.bind, ha, pure, Except.pure]
+        | ok b =>
+          cases hb : checkedInt b with
+          | none => simp [bind, Except.bind, ha, hb, pure, Except.pure]
+          | some b' =>
+            cases ctx.scope.eval step with
+            | error e => simp [bind, Except.bind, ha, hb, pure, Except.pure]
+            | ok s =>
+              cases hs : checkedInt s with
+              | none => simp [bind, Except.bind, ha, hb, hs, pure, Except.pure]
+              | some s' =>
+                by_cases h0 : s' = 0
+                · simp [bind, Except.bind, ha, hb, hs, pure, Except.pure, h0]
+                · simp [bind, Except.bind, ha, hb, hs, pure, Except.pure, h0]
+
+/-- the iterations of a `ForLoopPulseTemplate` -/
+def iterK (p : PT) (idx : String) (xs : List Int) : Ctx → Except Err (List Item) := fun ctx =>
+  xs.flatMapM (fun (i : Int) =>
+    wrapSingle p.ident { ctx with scope := .range ctx.scope idx (i : Rat) } (internal p))
+
+theorem iterK_cons_ok (p : PT) (idx : String) (x : Int) (xs : List Int) (ctx : Ctx) (I : List Item)
+    (h : iterK p idx (x :: xs) ctx = .ok I) :
+    ∃ a b, wrapK p { ctx with scope := .range ctx.scope idx (x : Rat) } = .ok a ∧ iterK p idx xs ctx = .ok b ∧
+      I = a ++ b := by
+  unfold iterK at h
+  rw [List.flatMapM_cons] at h
+  obtain ⟨a, ha, h⟩ := bind_ok h
+  obtain ⟨b, hb, h⟩ := bind_ok h
+  exact ⟨a, b, ha, hb, (pure_ok h).symm⟩
+
+theorem GU_iter (p : PT) (idx : String) (h : GU (wrapK p)) : ∀ xs : List Int, GU (iterK p idx xs)
+  | [] => by
+      intro ctx T0 J _ _ T S I hI
+      unfold iterK at hI
+      rw [List.flatMapM_nil] at hI
+      cases pure_ok hI
+      exact inv_nil
+  | x :: xs => by
+      intro ctx T0 J hJ hnn T S I hI
+      obtain ⟨ja, jb, hja, hjb, rfl⟩ := iterK_cons_ok p idx x xs _ J hJ
+      obtain ⟨a, b, ha, hb, rfl⟩ := iterK_cons_ok p idx x xs _ I hI
+      obtain ⟨n1, n2⟩ := allLeavesList_append_left _ ja jb hnn
+      exact inv_append a b (h { ctx with scope := .range ctx.scope idx (x : Rat) } T0 ja hja n1 T S a ha)
+        (GU_iter p idx h xs ctx T0 jb hjb n2 T S b hb)
+
+theorem GB_iter (p : PT) (idx : String) (u : GU (wrapK p)) (h : GB (fun U a b => cleanW U a b p) (wrapK p)) :
+    ∀ xs : List Int, GB (fun U a b => cleanW U a b p) (iterK p idx xs)
+  | [] => by
+      intro ctx T0 J _ _ T₁ T₂ S S' U I I' c tr1 tr2 hI hI' _ _ _ _ _ _ _
+      unfold iterK at hI hI'
+      rw [List.flatMapM_nil] at hI hI'
+      cases pure_ok hI; cases pure_ok hI'
+      exact rel_nil c T₂
+  | x :: xs => by
+      intro ctx T0 J hJ hnn T₁ T₂ S S' U I I' c tr1 tr2 hI hI' hSU hS'U hf1 hf2 hclean htI htI'
+      obtain ⟨ja, jb, hja, hjb, rfl⟩ := iterK_cons_ok p idx x xs _ J hJ
+      obtain ⟨a, b, ha, hb, rfl⟩ := iterK_cons_ok p idx x xs _ I hI
+      obtain ⟨a', b', ha', hb', rfl⟩ := iterK_cons_ok p idx x xs _ I' hI'
+      obtain ⟨n1, n2⟩ := allLeavesList_append_left _ ja jb hnn
+      obtain ⟨t1, t2⟩ := allLeavesList_append_left _ a b htI
+      obtain ⟨t1', t2'⟩ := allLeavesList_append_left _ a' b' htI'
+      have ia := u { ctx with scope := .range ctx.scope idx (x : Rat) } T0 ja hja n1 _ _ a ha
+      have ia' := u { ctx with scope := .range ctx.scope idx (x : Rat) } T0 ja hja n1 _ _ a' ha'
+      exact rel_append c T₂ a b a' b' ia.nn ia'.nn
+        (h { ctx with scope := .range ctx.scope idx (x : Rat) } T0 ja hja n1 T₁ T₂ S S' U a a' c tr1 tr2 ha ha'
+          hSU hS'U hf1 hf2 hclean t1 t1')
+        (GB_iter p idx u h xs ctx T0 jb hjb n2 T₁ T₂ S S' U b b' c tr1 tr2 hb hb' hSU hS'U hf1 hf2 hclean t2 t2')
+
+theorem internal_for_ok (id : Option String) (body : PT) (idx : String) (start stop step : Expr)
+    (meas : List MeasDecl) (cons : List Expr) (ctx : Ctx) (I : List Item)
+    (h : internal (.forLoop id body idx start stop step meas cons) ctx = .ok I) :
+    ∃ r ms items, forRangeOf ctx.scope start stop step = .ok r ∧ getMeas meas ctx.scope.look ctx.mm = .ok ms ∧
+      iterK body idx r ctx = .ok items ∧ I = guardRun ms items := by
+  rw [internal_for_eq] at h
+  obtain ⟨_, _, h⟩ := bind_ok h
+  obtain ⟨r, hr, h⟩ := bind_ok h
+  obtain ⟨ms, hms, h⟩ := bind_ok h
+  obtain ⟨items, hi, h⟩ := bind_ok h
+  exact ⟨r, ms, items, hr, hms, hi, (pure_ok h).symm⟩
+
+theorem GU_for (id : Option String) (body : PT) (idx : String) (start stop step : Expr)
+    (meas : List MeasDecl) (cons : List Expr) (h : GU (wrapK body)) :
+    GU (internal (.forLoop id body idx start stop step meas cons)) := by
+  intro ctx T0 J hJ hnn T S I hI
+  obtain ⟨rj, _, jt, hrj, _, hjt, rfl⟩ := internal_for_ok _ _ _ _ _ _ _ _ _ J hJ
+  obtain ⟨r, ms, it, hr, _, hit, rfl⟩ := internal_for_ok _ _ _ _ _ _ _ _ _ I hI
+  have : rj = r := ok_inj hrj hr
+  subst this
+  exact inv_guardRun it ms (GU_iter body idx h rj ctx T0 jt hjt ((nnI_guardRun _ _).mp hnn) T S it hit)
+
+theorem GB_for (id : Option String) (body : PT) (idx : String) (start stop step : Expr)
+    (meas : List MeasDecl) (cons : List Expr) (u : GU (wrapK body))
+    (h : GB (fun U a b => cleanW U a b body) (wrapK body)) :
+    GB (fun U a b => cleanG U a b (.forLoop id body idx start stop step meas cons))
+      (internal (.forLoop id body idx start stop step meas cons)) := by
+  intro ctx T0 J hJ hnn T₁ T₂ S S' U I I' c tr1 tr2 hI hI' hSU hS'U hf1 hf2 hclean htI htI'
+  obtain ⟨rj, _, jt, hrj, _, hjt, rfl⟩ := internal_for_ok _ _ _ _ _ _ _ _ _ J hJ
+  obtain ⟨r, ms, it, hr, hms, hit, rfl⟩ := internal_for_ok _ _ _ _ _ _ _ _ _ I hI
+  obtain ⟨r', ms', it', hr', hms', hit', rfl⟩ := internal_for_ok _ _ _ _ _ _ _ _ _ I' hI'
+  have : rj = r := ok_inj hrj hr
+  subst this
+  have : rj = r' := ok_inj hrj hr'
+  subst this
+  have : ms = ms' := ok_inj hms hms'
+  subst this
+  have hn := (nnI_guardRun _ _).mp hnn
+  have i1 := GU_iter body idx u rj ctx T0 jt hjt hn _ _ it hit
+  have i2 := GU_iter body idx u rj ctx T0 jt hjt hn _ _ it' hit'
+  apply rel_guardRun c T₂ it it' ms i1.trail i2.trail
+  exact GB_iter body idx u h rj ctx T0 jt hjt hn T₁ T₂ S S' U it it' c tr1 tr2 hit hit' hSU hS'U hf1 hf2
+    (by simpa [cleanG, cleanW] using hclean) ((tidyI_guardRun _ _ _).mp htI) ((tidyI_guardRun _ _ _).mp htI')
+
+
+end QP.C05
+
+namespace QP.C05
+open QP.PT
+
+/-! ## repetition -/
+
+theorem internal_rep_ok (id : Option String) (body : PT) (count : Expr) (meas : List MeasDecl) (cons : List Expr)
+    (ctx : Ctx) (I : List Item) (h : internal (.rep id body count meas cons) ctx = .ok I) :
+    ∃ cv n, ctx.scope.eval count = .ok cv ∧ checkedInt cv = some n ∧
+      ((n ≤ 0 ∧ I = []) ∨
+       (0 < n ∧ ∃ ms items, getMeas meas ctx.scope.look ctx.mm = .ok ms ∧ wrapK body ctx = .ok items ∧
+         I = tryAppend ((Loop.mk n.toNat none [] []).applyItems items) ms)) := by
+  rw [internal] at h
+  obtain ⟨_, _, h⟩ := bind_ok h
+  obtain ⟨cv, hcv, h⟩ := bind_ok h
+  cases hn : checkedInt cv with
+  | none => simp [hn] at h
+  | some n =>
+    simp only [hn] at h
+    refine ⟨cv, n, hcv, hn, ?_⟩
+    by_cases hle : n ≤ 0
+    · left
+      simp only [hle, if_true] at h
+      exact ⟨hle, (pure_ok h).symm⟩
+    · right
+      simp only [hle, if_false] at h
+      obtain ⟨ms, hms, h⟩ := bind_ok h
+      obtain ⟨items, hi, h⟩ := bind_ok h
+      exact ⟨by omega, ms, items, hms, hi, (pure_ok h).symm⟩
+
+theorem GU_rep (id : Option String) (body : PT) (count : Expr) (meas : List MeasDecl) (cons : List Expr)
+    (h : GU (wrapK body)) : GU (internal (.rep id body count meas cons)) := by
+  intro ctx T0 J hJ hnn T S I hI
+  obtain ⟨cvj, nj, hcvj, hnj, hcasej⟩ := internal_rep_ok _ _ _ _ _ _ J hJ
+  obtain ⟨cv, n, hcv, hn, hcase⟩ := internal_rep_ok _ _ _ _ _ _ I hI
+  have : cvj = cv := ok_inj hcvj hcv
+  subst this
+  have : nj = n := by rw [hnj] at hn; exact Option.some.inj hn
+  subst this
+  rcases hcase with ⟨_, rfl⟩ | ⟨hpos, ms, it, _, hit, rfl⟩
+  · exact inv_nil
+  · rcases hcasej with ⟨hle, _⟩ | ⟨_, msj, jt, _, hjt, rfl⟩
+    · omega
+    · exact inv_rep nj.toNat (by omega) ms it
+        (h ctx T0 jt hjt (allLeavesList_rep _ _ _ _ hnn) T S it hit)
+
+theorem GB_rep (id : Option String) (body : PT) (count : Expr) (meas : List MeasDecl) (cons : List Expr)
+    (h : GB (fun U a b => cleanW U a b body) (wrapK body)) :
+    GB (fun U a b => cleanG U a b (.rep id body count meas cons)) (internal (.rep id body count meas cons)) := by
+  intro ctx T0 J hJ hnn T₁ T₂ S S' U I I' c tr1 tr2 hI hI' hSU hS'U hf1 hf2 hclean htI htI'
+  obtain ⟨cvj, nj, hcvj, hnj, hcasej⟩ := internal_rep_ok _ _ _ _ _ _ J hJ
+  obtain ⟨cv, n, hcv, hn, hcase⟩ := internal_rep_ok _ _ _ _ _ _ I hI
+  obtain ⟨cv', n', hcv', hn', hcase'⟩ := internal_rep_ok _ _ _ _ _ _ I' hI'
+  have : cvj = cv := ok_inj hcvj hcv
+  subst this
+  have : cvj = cv' := ok_inj hcvj hcv'
+  subst this
+  have : nj = n := by rw [hnj] at hn; exact Option.some.inj hn
+  subst this
+  have : nj = n' := by rw [hnj] at hn'; exact Option.some.inj hn'
+  subst this
+  rcases hcase with ⟨hle, rfl⟩ | ⟨hpos, ms, it, hms, hit, rfl⟩
+  · rcases hcase' with ⟨_, rfl⟩ | ⟨hpos', _⟩
+    · exact rel_nil c T₂
+    · omega
+  · rcases hcase' with ⟨hle', _⟩ | ⟨_, ms', it', hms', hit', rfl⟩
+    · omega
+    · rcases hcasej with ⟨hle, _⟩ | ⟨_, msj, jt, _, hjt, rfl⟩
+      · omega
+      · have : ms = ms' := ok_inj hms hms'
+        subst this
+        apply rel_rep
+        exact h ctx T0 jt hjt (allLeavesList_rep _ _ _ _ hnn) T₁ T₂ S S' U it it' c tr1 tr2 hit hit' hSU hS'U hf1 hf2
+          (by simpa [cleanG, cleanW] using hclean) (allLeavesList_rep _ _ _ _ htI) (allLeavesList_rep _ _ _ _ htI')
+
+/-! ## mapping -/
+
+theorem internal_mapping_ok (id : Option String) (body : PT) (pm : List (String × Expr)) (mm' : List (MName × MName))
+    (cm' : List (Chan × Option Chan)) (cons : List Expr) (ctx : Ctx) (I : List Item)
+    (h : internal (.mapping id body pm mm' cm' cons) ctx = .ok I) :
+    ∃ mmU cmU, updatedMm mm' ctx.mm = .ok mmU ∧ updatedCm cm' ctx.cm = .ok cmU ∧
+      wrapK body { ctx with scope := .mapped ctx.scope pm, mm := mmU, cm := cmU } = .ok I := by
+  rw [internal] at h
+  obtain ⟨_, _, h⟩ := bind_ok h
+  obtain ⟨mmU, h1, h⟩ := bind_ok h
+  obtain ⟨cmU, h2, h⟩ := bind_ok h
+  exact ⟨mmU, cmU, h1, h2, h⟩
+
+theorem GU_mapping (id : Option String) (body : PT) (pm : List (String × Expr)) (mm' : List (MName × MName))
+    (cm' : List (Chan × Option Chan)) (cons : List Expr) (h : GU (wrapK body)) :
+    GU (internal (.mapping id body pm mm' cm' cons)) := by
+  intro ctx T0 J hJ hnn T S I hI
+  obtain ⟨mj, cj, hmj, hcj, hJ'⟩ := internal_mapping_ok _ _ _ _ _ _ _ J hJ
+  obtain ⟨m, cc, hm, hc, hI'⟩ := internal_mapping_ok _ _ _ _ _ _ _ I hI
+  have : mj = m := ok_inj hmj hm
+  subst this
+  have : cj = cc := ok_inj hcj hc
+  subst this
+  exact h { ctx with scope := .mapped ctx.scope pm, mm := mj, cm := cj } T0 J hJ' hnn T S I hI'
+
+theorem GB_mapping (id : Option String) (body : PT) (pm : List (String × Expr)) (mm' : List (MName × MName))
+    (cm' : List (Chan × Option Chan)) (cons : List Expr) (h : GB (fun U a b => cleanW U a b body) (wrapK body)) :
+    GB (fun U a b => cleanG U a b (.mapping id body pm mm' cm' cons)) (internal (.mapping id body pm mm' cm' cons)) := by
+  intro ctx T0 J hJ hnn T₁ T₂ S S' U I I' c tr1 tr2 hI hI' hSU hS'U hf1 hf2 hclean htI htI'
+  obtain ⟨mj, cj, hmj, hcj, hJ'⟩ := internal_mapping_ok _ _ _ _ _ _ _ J hJ
+  obtain ⟨m, cc, hm, hc, hI1⟩ := internal_mapping_ok _ _ _ _ _ _ _ I hI
+  obtain ⟨m', cc', hm', hc', hI1'⟩ := internal_mapping_ok _ _ _ _ _ _ _ I' hI'
+  have : mj = m := ok_inj hmj hm
+  subst this
+  have : mj = m' := ok_inj hmj hm'
+  subst this
+  have : cj = cc := ok_inj hcj hc
+  subst this
+  have : cj = cc' := ok_inj hcj hc'
+  subst this
+  exact h { ctx with scope := .mapped ctx.scope pm, mm := mj, cm := cj } T0 J hJ' hnn T₁ T₂ S S' U I I' c tr1 tr2
+    hI1 hI1' hSU hS'U hf1 hf2 (by simpa [cleanG, cleanW] using hclean) htI htI'
+
+/-! ## parallel channel and arithmetic templates: the transformation in effect grows -/
+
+theorem internal_parallel_ok (id : Option String) (body : PT) (over : List (Chan × Expr)) (ctx : Ctx) (I : List Item)
+    (h : internal (.parallel id body over) ctx = .ok I) :
+    ∃ ov, overwrittenValues over ctx.scope ctx.cm = .ok ov ∧
+      wrapK body { ctx with trafo := ctx.trafo ++ [.parallel ov] } = .ok I := by
+  rw [internal] at h
+  obtain ⟨ov, h1, h⟩ := bind_ok h
+  exact ⟨ov, h1, h⟩
+
+theorem GU_parallel (id : Option String) (body : PT) (over : List (Chan × Expr)) (h : GU (wrapK body)) :
+    GU (internal (.parallel id body over)) := by
+  intro ctx T0 J hJ hnn T S I hI
+  obtain ⟨oj, hoj, hJ'⟩ := internal_parallel_ok _ _ _ _ J hJ
+  obtain ⟨o, ho, hI'⟩ := internal_parallel_ok _ _ _ _ I hI
+  exact h ctx (T0 ++ [.parallel oj]) J hJ' hnn (T ++ [.parallel o]) S I hI'
+
+theorem GB_parallel (id : Option String) (body : PT) (over : List (Chan × Expr))
+    (h : GB (fun U a b => cleanW U a b body) (wrapK body)) :
+    GB (fun U a b => cleanG U a b (.parallel id body over)) (internal (.parallel id body over)) := by
+  intro ctx T0 J hJ hnn T₁ T₂ S S' U I I' c tr1 tr2 hI hI' hSU hS'U hf1 hf2 hclean htI htI'
+  obtain ⟨oj, hoj, hJ'⟩ := internal_parallel_ok _ _ _ _ J hJ
+  obtain ⟨o, ho, hI1⟩ := internal_parallel_ok _ _ _ _ I hI
+  obtain ⟨o', ho', hI1'⟩ := internal_parallel_ok _ _ _ _ I' hI'
+  have : o = o' := ok_inj ho ho'
+  subst this
+  simp only [cleanG, Bool.and_eq_true, Bool.not_eq_true'] at hclean
+  have hT2 : T₂ = [] := by
+    cases T₂ with
+    | nil => rfl
+    | cons t ts => have := hf2 (by simp); rw [this] at hclean; exact absurd hclean.1 (by simp)
+  subst hT2
+  have := h ctx (T0 ++ [.parallel oj]) J hJ' hnn (T₁ ++ [.parallel o]) [] S S' U I I' c true false
+    (by simpa using hI1) hI1' hSU hS'U (fun _ => rfl) (fun h => absurd rfl h)
+    (by simpa [cleanW, Bool.and_eq_true] using hclean.2) htI htI'
+  exact this
+
+theorem internal_arith_ok (id : Option String) (body : PT) (op : AOp) (scalar : Scalar) (lhs : Bool) (ctx : Ctx)
+    (I : List Item) (h : internal (.arith id body op scalar lhs) ctx = .ok I) :
+    ∃ T, arithTransformation body.definedChannels op scalar lhs ctx.scope ctx.cm = .ok T ∧
+      wrapK body { ctx with trafo := T ++ ctx.trafo } = .ok I := by
+  rw [internal] at h
+  obtain ⟨T, h1, h⟩ := bind_ok h
+  exact ⟨T, h1, h⟩
+
+theorem GU_arith (id : Option String) (body : PT) (op : AOp) (scalar : Scalar) (lhs : Bool) (h : GU (wrapK body)) :
+    GU (internal (.arith id body op scalar lhs)) := by
+  intro ctx T0 J hJ hnn T S I hI
+  obtain ⟨Tj, _, hJ'⟩ := internal_arith_ok _ _ _ _ _ _ J hJ
+  obtain ⟨Ta, _, hI'⟩ := internal_arith_ok _ _ _ _ _ _ I hI
+  exact h ctx (Tj ++ T0) J hJ' hnn (Ta ++ T) S I hI'
+
+theorem GB_arith (id : Option String) (body : PT) (op : AOp) (scalar : Scalar) (lhs : Bool)
+    (h : GB (fun U a b => cleanW U a b body) (wrapK body)) :
+    GB (fun U a b => cleanG U a b (.arith id body op scalar lhs)) (internal (.arith id body op scalar lhs)) := by
+  intro ctx T0 J hJ hnn T₁ T₂ S S' U I I' c tr1 tr2 hI hI' hSU hS'U hf1 hf2 hclean htI htI'
+  obtain ⟨Tj, _, hJ'⟩ := internal_arith_ok _ _ _ _ _ _ J hJ
+  obtain ⟨Ta, hTa, hI1⟩ := internal_arith_ok _ _ _ _ _ _ I hI
+  obtain ⟨Ta', hTa', hI1'⟩ := internal_arith_ok _ _ _ _ _ _ I' hI'
+  have : Ta = Ta' := ok_inj hTa hTa'
+  subst this
+  exact h ctx (Tj ++ T0) J hJ' hnn (Ta ++ T₁) T₂ S S' U I I' c true tr2
+    (by simpa [List.append_assoc] using hI1) hI1' hSU hS'U (fun _ => rfl) hf2
+    (by simpa [cleanG, cleanW, Bool.and_eq_true] using hclean) htI htI'
+
+
+end QP.C05
+
+namespace QP.C05
+open QP.PT
+
+/-! ## time reversal -/
+
+theorem reversedWf_duration (w : Wf) : w.reversedWf.duration = w.duration := by
+  cases w <;> simp [Wf.reversedWf, Wf.duration]
+
+theorem reversedWf_cst (w : Wf) (h : cst w = true) : cst w.reversedWf = true := by
+  cases w <;> simp_all [Wf.reversedWf, cst]
+
+mutual
+theorem allLeaves_mono (q p : Wf → Bool) (h : ∀ w, q w = true → p w = true) :
+    ∀ l : Loop, allLeaves q l = true → allLeaves p l = true
+  | .mk rep wf meas [], hl => by
+      cases wf with
+      | none => simp [allLeaves]
+      | some w => simp only [allLeaves] at hl ⊢; exact h w hl
+  | .mk rep wf meas (c :: cs), hl => by
+      simp only [allLeaves] at hl ⊢
+      exact allLeavesList_mono q p h (c :: cs) hl
+theorem allLeavesList_mono (q p : Wf → Bool) (h : ∀ w, q w = true → p w = true) :
+    ∀ cs : List Loop, allLeavesList q cs = true → allLeavesList p cs = true
+  | [], _ => rfl
+  | c :: cs, hl => by
+      simp only [allLeavesList, Bool.and_eq_true] at hl ⊢
+      exact ⟨allLeaves_mono q p h c hl.1, allLeavesList_mono q p h cs hl.2⟩
+end
+
+theorem reverseList_eq : ∀ (cs acc : List Loop),
+    Loop.reverseList cs acc = (cs.map Loop.reverseInplace).reverse ++ acc
+  | [], acc => by simp [Loop.reverseList]
+  | c :: cs, acc => by
+      rw [Loop.reverseList, reverseList_eq cs]
+      simp
+
+theorem reverseList_ne_nil (c : Loop) (cs acc : List Loop) : Loop.reverseList (c :: cs) acc ≠ [] := by
+  rw [reverseList_eq]
+  simp
+
+mutual
+theorem allLeaves_reverse_eq (p : Wf → Bool) :
+    ∀ l : Loop, allLeaves p l.reverseInplace = allLeaves (fun w => p w.reversedWf) l
+  | .mk rep wf meas [] => by
+      rw [Loop.reverseInplace]
+      cases wf <;> simp [allLeaves]
+  | .mk rep wf meas (c :: cs) => by
+      rw [Loop.reverseInplace]
+      have h := allLeavesList_reverse_eq p (c :: cs) []
+      obtain ⟨x, r, hr⟩ : ∃ x r, Loop.reverseList (c :: cs) [] = x :: r := by
+        cases hr : Loop.reverseList (c :: cs) [] with
+        | nil => exact absurd hr (reverseList_ne_nil c cs [])
+        | cons x r => exact ⟨x, r, rfl⟩
+      rw [hr] at h
+      show allLeaves p (Loop.mk rep wf _ (Loop.reverseList (c :: cs) [])) = _
+      rw [hr]
+      have e1 : ∀ m, allLeaves p (Loop.mk rep wf m (x :: r)) = allLeavesList p (x :: r) := fun m => by
+        rw [allLeaves]
+      have e2 : allLeaves (fun w => p w.reversedWf) (Loop.mk rep wf meas (c :: cs)) =
+          allLeavesList (fun w => p w.reversedWf) (c :: cs) := by rw [allLeaves]
+      rw [e1, e2, h]
+      simp [allLeavesList]
+theorem allLeavesList_reverse_eq (p : Wf → Bool) : ∀ (cs acc : List Loop),
+    allLeavesList p (Loop.reverseList cs acc) =
+      (allLeavesList (fun w => p w.reversedWf) cs && allLeavesList p acc)
+  | [], acc => by rw [Loop.reverseList]; simp [allLeavesList]
+  | c :: cs, acc => by
+      rw [Loop.reverseList, allLeavesList_reverse_eq p cs]
+      simp only [allLeavesList, allLeaves_reverse_eq p c]
+      cases allLeaves (fun w => p w.reversedWf) c <;> cases allLeavesList (fun w => p w.reversedWf) cs <;> simp
+end
+
+theorem allLeaves_reverse (p q : Wf → Bool) (hpq : ∀ w, q w = true → p w.reversedWf = true) (l : Loop)
+    (h : allLeaves q l = true) : allLeaves p l.reverseInplace = true := by
+  rw [allLeaves_reverse_eq]
+  exact allLeaves_mono _ _ hpq l h
+
+
+mutual
+theorem posReps_reverse : ∀ l : Loop, posReps l = true → posReps l.reverseInplace = true
+  | .mk rep wf meas [], h => by
+      rw [Loop.reverseInplace]
+      rw [posReps] at h ⊢
+      cases wf <;> simpa using h
+  | .mk rep wf meas (c :: cs), h => by
+      rw [Loop.reverseInplace]
+      rw [posReps] at h
+      simp only [Bool.and_eq_true, decide_eq_true_eq] at h
+      have := posRepsList_reverse (c :: cs) [] h.2 rfl
+      cases hr : Loop.reverseList (c :: cs) [] with
+      | nil => exact absurd hr (reverseList_ne_nil c cs [])
+      | cons x r =>
+        rw [hr] at this
+        rw [posReps]
+        simp only [Bool.and_eq_true, decide_eq_true_eq]
+        exact ⟨h.1, this⟩
+theorem posRepsList_reverse : ∀ (cs acc : List Loop), posRepsList cs = true → posRepsList acc = true →
+    posRepsList (Loop.reverseList cs acc) = true
+  | [], acc, _, ha => by rw [Loop.reverseList]; exact ha
+  | c :: cs, acc, h, ha => by
+      rw [Loop.reverseList]
+      simp only [posRepsList, Bool.and_eq_true] at h
+      apply posRepsList_reverse cs _ h.2
+      simp only [posRepsList, Bool.and_eq_true]
+      exact ⟨posReps_reverse c h.1, ha⟩
+end
+
+theorem inv_reverse (items : List Item) (root : Loop) (hinv : Inv items) (hr : toProgram items = some root) :
+    Inv [Item.node root.reverseInplace] := by
+  rw [toProgram_eq] at hr
+  have hne : itemsNodes items ≠ [] := by
+    intro e; simp [e] at hr
+  have he : (itemsNodes items).isEmpty = false := by simpa using hne
+  simp only [he, Bool.false_eq_true, if_false, Option.some.injEq] at hr
+  subst hr
+  have hpos : posReps (rootOf items) = true := by
+    unfold rootOf
+    cases hc : itemsNodes items with
+    | nil => exact absurd hc hne
+    | cons x r =>
+      have hp := hinv.pos
+      rw [hc] at hp
+      rw [posReps]
+      simp only [Bool.and_eq_true, decide_eq_true_eq]
+      exact ⟨Nat.le_refl 1, hp⟩
+  refine ⟨by simp [endsOk], ?_, ?_, ?_⟩
+  · simp only [itemsNodes, allLeavesList, Bool.and_true]
+    apply allLeaves_reverse QP.C05.cst QP.C05.cst reversedWf_cst
+    simp only [rootOf, allLeaves_none]; exact hinv.cst
+  · simp only [itemsNodes, posRepsList, Bool.and_true]
+    exact posReps_reverse _ hpos
+  · simp only [itemsNodes, allLeavesList, Bool.and_true]
+    apply allLeaves_reverse nonnegW nonnegW (fun w h => by
+      simp only [nonnegW, decide_eq_true_eq] at h ⊢
+      rw [reversedWf_duration]; exact h)
+    simp only [rootOf, allLeaves_none]; exact hinv.nn
+
+theorem internal_rev_ok (id : Option String) (body : PT) (ctx : Ctx) (I : List Item)
+    (h : internal (.timeReversal id body) ctx = .ok I) :
+    ∃ items, internal body ctx = .ok items ∧
+      ((toProgram items = none ∧ I = []) ∨ ∃ root, toProgram items = some root ∧ I = [Item.node root.reverseInplace]) := by
+  rw [internal] at h
+  obtain ⟨items, hi, h⟩ := bind_ok h
+  refine ⟨items, hi, ?_⟩
+  cases hp : toProgram items with
+  | none => left; simp only [hp] at h; exact ⟨rfl, (pure_ok h).symm⟩
+  | some root => right; simp only [hp] at h; exact ⟨root, rfl, (pure_ok h).symm⟩
+
+theorem GU_rev (id : Option String) (body : PT) (h : GU (internal body)) : GU (internal (.timeReversal id body)) := by
+  intro ctx T0 J hJ hnn T S I hI
+  obtain ⟨jt, hjt, hcj⟩ := internal_rev_ok _ _ _ J hJ
+  obtain ⟨it, hit, hc⟩ := internal_rev_ok _ _ _ I hI
+  -- the default program's body has non-negative durations as well (reversal keeps durations)
+  have hnj : nnI jt := by
+    rcases hcj with ⟨hn, _⟩ | ⟨rootj, hrj, rfl⟩
+    · rw [toProgram_eq] at hn
+      have : itemsNodes jt = [] := by
+        by_cases he : (itemsNodes jt).isEmpty = true
+        · exact List.isEmpty_iff.mp he
+        · simp [he] at hn
+      simp [nnI, this, allLeavesList]
+    · rw [toProgram_eq] at hrj
+      have hne : itemsNodes jt ≠ [] := by
+        intro e; simp [e] at hrj
+      have he : (itemsNodes jt).isEmpty = false := by simpa using hne
+      simp only [he, Bool.false_eq_true, if_false, Option.some.injEq] at hrj
+      subst hrj
+      simp only [nnI, itemsNodes, allLeavesList, Bool.and_true, allLeaves_reverse_eq] at hnn
+      have hfun : (fun w : Wf => nonnegW w.reversedWf) = nonnegW := by
+        funext w; simp [nonnegW, reversedWf_duration]
+      rw [hfun] at hnn
+      simpa [nnI, rootOf, allLeaves_none] using hnn
+  have inv := h ctx T0 jt hjt hnj T S it hit
+  rcases hc with ⟨_, rfl⟩ | ⟨root, hr, rfl⟩
+  · exact inv_nil
+  · exact inv_reverse it root inv hr
+
+
+end QP.C05
+
+namespace QP.C05
+open QP.PT
+
+/-! ## `to_single_waveform` entries that name nothing inside a template do not matter -/
+
+def freeOf (S S' : List String) (ids : List String) : Prop :=
+  ∀ i ∈ ids, S.contains i = false ∧ S'.contains i = false
+
+theorem identsBelow_subset : ∀ (p : PT) (i : String), i ∈ identsBelow p → i ∈ idents p
+  | .const .., i, h => by simp [identsBelow] at h
+  | .table .., i, h => by simp [identsBelow] at h
+  | .point .., i, h => by simp [identsBelow] at h
+  | .func .., i, h => by simp [identsBelow] at h
+  | .atomicMulti .., i, h => by simp [identsBelow] at h
+  | .arithAtomic .., i, h => by simp [identsBelow] at h
+  | .seq id subs _ _, i, h => by simp only [identsBelow] at h; simp [idents, h]
+  | .rep id body _ _ _, i, h => by simp only [identsBelow] at h; simp [idents, h]
+  | .forLoop id body _ _ _ _ _ _, i, h => by simp only [identsBelow] at h; simp [idents, h]
+  | .mapping id body _ _ _ _, i, h => by simp only [identsBelow] at h; simp [idents, h]
+  | .parallel id body _, i, h => by simp only [identsBelow] at h; simp [idents, h]
+  | .arith id body _ _ _, i, h => by simp only [identsBelow] at h; simp [idents, h]
+  | .timeReversal id body, i, h => by
+      simp only [identsBelow] at h
+      simp [idents, identsBelow_subset body i h]
+
+theorem ident_mem_idents (p : PT) (n : String) (h : p.ident = some n) : n ∈ idents p := by
+  cases p <;> simp_all [PT.ident, idents]
+
+theorem atomItems_single (p : PT) (ctx : Ctx) (S' : List String) :
+    atomItems p ctx = atomItems p { ctx with single := S' } := rfl
+
+theorem wrapK_single_of (p : PT) (ctx : Ctx) (S' : List String)
+    (h : freeOf ctx.single S' (idents p))
+    (ih : internal p ctx = internal p { ctx with single := S' }) :
+    wrapK p ctx = wrapK p { ctx with single := S' } := by
+  unfold wrapK
+  have h1 : isCollId p.ident ctx.single = false := by
+    cases hid : p.ident with
+    | none => rfl
+    | some n => exact (h n (ident_mem_idents p n hid)).1
+  have h2 : isCollId p.ident S' = false := by
+    cases hid : p.ident with
+    | none => rfl
+    | some n => exact (h n (ident_mem_idents p n hid)).2
+  rw [wrapSingle_not _ _ _ h1, wrapSingle_not _ _ _ (by exact h2), ih]
+
+
+theorem freeOf_mono (S S' : List String) (a b : List String) (h : freeOf S S' b) (hs : ∀ i ∈ a, i ∈ b) :
+    freeOf S S' a := fun i hi => h i (hs i hi)
+
+mutual
+theorem internal_single : ∀ (p : PT) (ctx : Ctx) (S' : List String), freeOf ctx.single S' (identsBelow p) →
+    internal p ctx = internal p { ctx with single := S' }
+  | .const .., ctx, S', _ => by rw [internal, internal]; rfl
+  | .table .., ctx, S', _ => by rw [internal, internal]; rfl
+  | .point .., ctx, S', _ => by rw [internal, internal]; rfl
+  | .func .., ctx, S', _ => by rw [internal, internal]; rfl
+  | .atomicMulti .., ctx, S', _ => by rw [internal, internal]; rfl
+  | .arithAtomic .., ctx, S', _ => by rw [internal, internal]; rfl
+  | .seq id subs meas cons, ctx, S', h => by
+      rw [internal, internal]
+      dsimp only
+      rw [internalList_single subs ctx S' (by simpa [identsBelow] using h)]
+  | .rep id body count meas cons, ctx, S', h => by
+      have hb : freeOf ctx.single S' (idents body) := by simpa [identsBelow] using h
+      have := wrapK_single_of body ctx S' hb
+        (internal_single body ctx S' (freeOf_mono _ _ _ _ hb (identsBelow_subset body)))
+      unfold wrapK at this
+      rw [internal, internal]
+      dsimp only
+      rw [this]
+  | .forLoop id body idx start stop step meas cons, ctx, S', h => by
+      have hb : freeOf ctx.single S' (idents body) := by simpa [identsBelow] using h
+      rw [internal_for_eq, internal_for_eq]
+      dsimp only
+      have : (fun (i : Int) => wrapSingle body.ident { ctx with scope := .range ctx.scope idx (i : Rat) } (internal body)) =
+          (fun (i : Int) => wrapSingle body.ident
+            { scope := .range ctx.scope idx (i : Rat), mm := ctx.mm, cm := ctx.cm, trafo := ctx.trafo, single := S' }
+            (internal body)) := by
+        funext i
+        have := wrapK_single_of body { ctx with scope := .range ctx.scope idx (i : Rat) } S' hb
+          (internal_single body _ S' (freeOf_mono _ _ _ _ hb (identsBelow_subset body)))
+        unfold wrapK at this
+        exact this
+      rw [this]
+  | .mapping id body pm mm' cm' cons, ctx, S', h => by
+      have hb : freeOf ctx.single S' (idents body) := by simpa [identsBelow] using h
+      rw [internal, internal]
+      dsimp only
+      congr 1; funext _
+      congr 1; funext mmU
+      congr 1; funext cmU
+      have := wrapK_single_of body { ctx with scope := .mapped ctx.scope pm, mm := mmU, cm := cmU } S' hb
+        (internal_single body _ S' (freeOf_mono _ _ _ _ hb (identsBelow_subset body)))
+      unfold wrapK at this
+      exact this
+  | .parallel id body over, ctx, S', h => by
+      have hb : freeOf ctx.single S' (idents body) := by simpa [identsBelow] using h
+      rw [internal, internal]
+      dsimp only
+      congr 1; funext ov
+      have := wrapK_single_of body { ctx with trafo := ctx.trafo ++ [.parallel ov] } S' hb
+        (internal_single body _ S' (freeOf_mono _ _ _ _ hb (identsBelow_subset body)))
+      unfold wrapK at this
+      exact this
+  | .arith id body op scalar lhs, ctx, S', h => by
+      have hb : freeOf ctx.single S' (idents body) := by simpa [identsBelow] using h
+      rw [internal, internal]
+      dsimp only
+      congr 1; funext T
+      have := wrapK_single_of body { ctx with trafo := T ++ ctx.trafo } S' hb
+        (internal_single body _ S' (freeOf_mono _ _ _ _ hb (identsBelow_subset body)))
+      unfold wrapK at this
+      exact this
+  | .timeReversal id body, ctx, S', h => by
+      have hb : freeOf ctx.single S' (identsBelow body) := by simpa [identsBelow] using h
+      rw [internal, internal]
+      rw [internal_single body ctx S' hb]
+theorem internalList_single : ∀ (ps : List PT) (ctx : Ctx) (S' : List String), freeOf ctx.single S' (identsList ps) →
+    internalList ps ctx = internalList ps { ctx with single := S' }
+  | [], ctx, S', _ => by rw [internalList, internalList]
+  | p :: ps, ctx, S', h => by
+      have hp : freeOf ctx.single S' (idents p) := fun i hi => h i (by simp [identsList, hi])
+      have hps : freeOf ctx.single S' (identsList ps) := fun i hi => h i (by simp [identsList, hi])
+      have := wrapK_single_of p ctx S' hp
+        (internal_single p ctx S' (freeOf_mono _ _ _ _ hp (identsBelow_subset p)))
+      unfold wrapK at this
+      rw [internalList, internalList, this, internalList_single ps ctx S' hps]
+end
+
+
+end QP.C05
+
+namespace QP.C05
+open QP.PT
+
+theorem GB_rev (id : Option String) (body : PT) :
+    GB (fun U a b => cleanG U a b (.timeReversal id body)) (internal (.timeReversal id body)) := by
+  intro ctx T0 J hJ hnn T₁ T₂ S S' U I I' c tr1 tr2 hI hI' hSU hS'U hf1 hf2 hclean htI htI'
+  simp only [cleanG, Bool.and_eq_true, Bool.not_eq_true', List.all_eq_true] at hclean
+  have hT2 : T₂ = [] := by
+    cases T₂ with
+    | nil => rfl
+    | cons t ts => have := hf2 (by simp); rw [this] at hclean; exact absurd hclean.1 (by simp)
+  subst hT2
+  have hfree : freeOf S S' (identsBelow (.timeReversal id body)) := by
+    intro i hi
+    have hU : U.contains i = false := by
+      have := hclean.2 i (by simpa [identsBelow] using hi)
+      simpa using this
+    constructor
+    · cases hs : S.contains i with
+      | false => rfl
+      | true => rw [hSU i hs] at hU; cases hU
+    · cases hs : S'.contains i with
+      | false => rfl
+      | true => rw [hS'U i hs] at hU; cases hU
+  have heq := internal_single (.timeReversal id body) { ctx with trafo := T₁, single := S } S' hfree
+  have hI2 : internal (.timeReversal id body) { ctx with trafo := T₁, single := S } = .ok I := by
+    simpa using hI
+  rw [heq] at hI2
+  have : I = I' := ok_inj hI2 hI'
+  subst this
+  exact rel_refl c I
+
+mutual
+/-- the main induction over all template trees -/
+theorem G_all : ∀ p : PT, GU (internal p) ∧ GB (fun U a b => cleanG U a b p) (internal p)
+  | .const id dur amps meas =>
+      ⟨GU_atom _ (fun ctx => by rw [internal]), GB_atom _ (fun ctx => by rw [internal]) _⟩
+  | .table id entries meas cons =>
+      ⟨GU_atom _ (fun ctx => by rw [internal]), GB_atom _ (fun ctx => by rw [internal]) _⟩
+  | .point id chans entries meas cons =>
+      ⟨GU_atom _ (fun ctx => by rw [internal]), GB_atom _ (fun ctx => by rw [internal]) _⟩
+  | .func id ch dur e meas cons =>
+      ⟨GU_atom _ (fun ctx => by rw [internal]), GB_atom _ (fun ctx => by rw [internal]) _⟩
+  | .atomicMulti id subs dur meas cons =>
+      ⟨GU_atom _ (fun ctx => by rw [internal]), GB_atom _ (fun ctx => by rw [internal]) _⟩
+  | .arithAtomic id lhs minus rhs meas =>
+      ⟨GU_atom _ (fun ctx => by rw [internal]), GB_atom _ (fun ctx => by rw [internal]) _⟩
+  | .seq id subs meas cons =>
+      have h := GL_all subs
+      ⟨GU_seq id subs meas cons h.1, GB_seq id subs meas cons h.1 h.2⟩
+  | .rep id body count meas cons =>
+      have h := G_all body
+      ⟨GU_rep id body count meas cons (GU_wrap body h.1), GB_rep id body count meas cons (GB_wrap body h.1 h.2)⟩
+  | .forLoop id body idx start stop step meas cons =>
+      have h := G_all body
+      ⟨GU_for id body idx start stop step meas cons (GU_wrap body h.1),
+        GB_for id body idx start stop step meas cons (GU_wrap body h.1) (GB_wrap body h.1 h.2)⟩
+  | .mapping id body pm mm cm cons =>
+      have h := G_all body
+      ⟨GU_mapping id body pm mm cm cons (GU_wrap body h.1), GB_mapping id body pm mm cm cons (GB_wrap body h.1 h.2)⟩
+  | .parallel id body over =>
+      have h := G_all body
+      ⟨GU_parallel id body over (GU_wrap body h.1), GB_parallel id body over (GB_wrap body h.1 h.2)⟩
+  | .arith id body op scalar lhs =>
+      have h := G_all body
+      ⟨GU_arith id body op scalar lhs (GU_wrap body h.1), GB_arith id body op scalar lhs (GB_wrap body h.1 h.2)⟩
+  | .timeReversal id body =>
+      have h := G_all body
+      ⟨GU_rev id body h.1, GB_rev id body⟩
+theorem GL_all : ∀ ps : List PT, GU (internalList ps) ∧ GB (fun U a b => cleanL U a b ps) (internalList ps)
+  | [] => ⟨GU_nil, GB_nil _⟩
+  | p :: ps =>
+      have hp := G_all p
+      have hps := GL_all ps
+      ⟨GU_cons p ps (GU_wrap p hp.1) hps.1, GB_cons p ps (GU_wrap p hp.1) (GB_wrap p hp.1 hp.2) hps.2⟩
+end
+
+/-- `_create_program` of every template: invariants and relation -/
+theorem W_all (p : PT) : GU (wrapK p) ∧ GB (fun U a b => cleanW U a b p) (wrapK p) :=
+  ⟨GU_wrap p (G_all p).1, GB_wrap p (G_all p).1 (G_all p).2⟩
+
+
+end QP.C05
